@@ -194,6 +194,11 @@ func (m *Machine) buildQuery(s *SMT, o *Obligation) string {
 	q.WriteString(s.base)
 	syms := smtSymbols(all)
 	for _, cc := range s.conds {
+		if o.Kind == "reach" && strings.Contains(cc.text, "forall") {
+			// reachability is decided without the quantified axioms (fewer constraints: an unsat
+			// answer is still conclusive, and the solver can return sat)
+			continue
+		}
 		for _, one := range strings.Fields(cc.sym) {
 			if syms[one] {
 				q.WriteString(cc.text)
